@@ -370,7 +370,7 @@ Theorem sstep_refines : forall (w : wN) s op, sinv w s -> sop_ok op ->
 Proof.
   intros w s op Hinv Hok.
   pose proof (sinv_hwf _ _ Hinv) as Hwf.
-  destruct op as [i|i l|i l|i l|i l|i j|i j|i j|i j|i l|i off|i j|i j|i l|i c|i l|i j k mv|i j l|i j|i j|i l|i|i l|i|i|i n|i idx|i c idx];
+  destruct op as [i|i l|i l|i l|i l|i j|i j|i j|i j|i l|i off|i j|i j|i l|i c|i l|i j k mv|i j l|i j|i j|i l|i|i l|i|i|i n|i idx|i c idx|i|i|i|i];
     cbn [sstep sspec fst snd sop_ok] in *.
   - (* SDefault *)
     destruct (s_reset_ok w s i (upd s i []) Hinv (upd_same _ _ _ _) (fun k Hk => upd_other _ _ _ _ _ Hk)) as (h1 & Hf & Hinv1).
@@ -698,6 +698,24 @@ Proof.
       * unfold owns_s in Hoi. rewrite Eblk in Hoi. destruct Hoi as (Hsz & Hnil). lia.
     + eexists. split; [reflexivity|]. apply (inv_ext owns_s w s _ Hinv). intros k.
       destruct (Nat.eq_dec k i) as [->|Hk]; [now rewrite upd_same | now rewrite upd_other].
+  - (* SIter *)
+    rewrite (owns_s_read_all _ _ _ (sinv_obj _ _ i Hinv)). cbn [bind]. eauto.
+  - (* SLast *)
+    pose proof (sinv_obj _ _ i Hinv) as Hoi. pose proof (owns_s_len _ _ _ Hoi) as Hlen.
+    rewrite (owns_s_read _ _ _ (size (ob w i) - 1) _ Hoi) by (destruct (Nat.eqb_spec (size (ob w i)) 0); lia).
+    cbn [bind]. rewrite Hlen.
+    rewrite firstn_all2 by (rewrite skipn_length; destruct (Nat.eqb_spec (size (ob w i)) 0); lia).
+    eauto.
+  - (* SIsEmpty *)
+    rewrite (owns_s_len _ _ _ (sinv_obj _ _ i Hinv)). eauto.
+  - (* SStreamOut *)
+    pose proof (sinv_obj _ _ i Hinv) as Hoi.
+    destruct (blk (ob w i)) as [bo|] eqn:Eblk.
+    + rewrite <- Eblk.
+      pose proof (owns_s_read_term _ _ _ 0 Hoi ltac:(congruence) ltac:(lia)) as Hrd.
+      rewrite Nat.sub_0_r in Hrd. cbn [skipn] in Hrd. rewrite Hrd. cbn [bind].
+      rewrite cstr_len_app0, firstn_cstr_app. eauto.
+    + unfold owns_s in Hoi. rewrite Eblk in Hoi. destruct Hoi as (_ & Hnil). rewrite Hnil. cbn [cstr_len firstn]. eauto.
 Qed.
 
 Lemma sinv0 : sinv world0 spec0.
